@@ -54,6 +54,8 @@ class Lock:
 def build_go():
     """harness and extractor, always from /repo's current working tree, hooks on"""
     shutil.copyfile(os.path.join(REPO, "go.sum"), os.path.join(HARNESS, "go.sum"))
+    if REPO != "/repo":  # a snapshot of the repository (vp run --with-repo): point the harness module at it
+        sh(["go", "mod", "edit", "-replace", "github.com/cloudspannerecosystem/memefish=" + REPO], cwd=HARNESS, env=GOENV)
     r = sh(["go", "build", "-tags", "verif", "-o", MFH, "."], cwd=HARNESS, env=GOENV)
     if r.returncode != 0:
         return "go build of the harness against /repo failed:\n" + r.stdout
